@@ -277,6 +277,10 @@ func snJudge(env *vk.Env, tr *vk.Trace, label string) {
 	}
 	again := map[string]string{}
 	for _, v := range viol2 {
+		// a line may violate several invariants; "not decidable" (PrintDecided) yields to any real verdict
+		if prev, ok := again[string(v.Line)]; ok && prev != "PrintDecided" {
+			continue
+		}
 		again[string(v.Line)] = v.Inv
 	}
 	relines := bytes.Split(bytes.TrimSpace(re.Bytes()), []byte("\n"))
@@ -958,7 +962,8 @@ type snProfile struct {
 }
 
 var snStrings = []string{"a", "hello world", "it's", `say "hi"`, `back\slash`, `both ' and "`, "x_y-z.w+v", "ünï", "\x01\xff", "{[,:;]}", " lead", "trail ", "A1", "b2b", "line\nbreak", "tab\there", strings.Repeat("long ", 30), "e", "B", "I;", "L"}
-var snOddStrings = []string{"", "123", "-1", "1.5", "1b", "0x10", "1e5", "true", "-", "12L", ".5"}
+// ("true"/"false" are not here: printed bare they are grey in the listed grammar)
+var snOddStrings = []string{"", "123", "-1", "1.5", "1b", "0x10", "1e5", "-", "12L", ".5", "+1", "1f", "0"}
 
 func snRandString(rng *rand.Rand, p snProfile) []int {
 	if p.oddStrings && rng.Intn(4) == 0 {
@@ -1270,7 +1275,7 @@ func snPrintProbes() []*nbtNode {
 }
 
 func snLegBPrint(env *vk.Env, rng *rand.Rand) {
-	printSafe := snProfile{}
+	printSafe := snProfile{negBytes: true, nestedLists: true, oddStrings: true} // non-empty int arrays: open finding, probes only
 	// binary -> text -> binary
 	tr := &vk.Trace{}
 	nd := env.Pick(3000, 25000)
